@@ -21,6 +21,7 @@ RULE = (
     "operation; random: seeded 200-step histories over all known attributes and their keys. Non-trivial when the "
     "state holds at least one key; distinct by canonical JSON."
     ' Round 5: SM chart fields assigned values with blanks around them; twins with the same pairs in reverse insertion order must be unequal.'
+    ' Round 6: values with CRLF / lone CR, long values whose only special character is a backslash, a 4000-character SM chart.'
 )
 EXHAUSTIVE_PART = "every model state (79 per property x 9 object/property pairs; 64 SM chart states) x every operation"
 ASSUMPTIONS = ["vmon/ref/dictmodel.py states the attribute/alias rule"]
